@@ -74,7 +74,12 @@ def build(case):
     C.iotaVal = case['iota']
     if case.get('R0') is not None:
         C.R0 = case['R0']
-    lay = Layout('v_parallel_2d', list(case['nprocs']), [0, 2, 1], eta, list(case['rank']))
+    if case['sub'] % 5 == 4 and len(case['nprocs']) == 1:
+        # a layout that stores z first and r second (r distributed over the SECOND direction of the process grid)
+        pz = 2 if case['nz'] >= 2 else 1
+        lay = Layout('z_r_theta', [pz, case['nprocs'][0]], [2, 0, 1], eta, [case['sub'] % pz, case['rank'][0]])
+    else:
+        lay = Layout('v_parallel_2d', list(case['nprocs']), [0, 2, 1], eta, list(case['rank']))
     # another operator on the same spline space, grid and block but with other constants is built first in the same
     # process (a parameter scan): nothing may be shared between operators except what depends on the grid alone
     C2 = Constants()
@@ -159,6 +164,9 @@ def _run_case(chk, drv, case, stats):
     ri = int(rng.randint(B['nr']))
     tag = dict(case, rIdx=ri)
     phi = rng.uniform(-1, 1, size=(nz, nq)) * rng.choice([1.0, 1e3, 1e-3])
+    if case['sub'] % 4 == 1:
+        # a potential of very small amplitude (the early linear phase) / a small variation on a large offset
+        phi = phi * 1e-9 / max(1e-300, float(np.abs(phi).max())) if case['sub'] % 8 == 1 else 1e3 + 1e-3 * phi / float(np.abs(phi).max())
     der = np.full((nz, nq), np.nan)
     out = pg.parallel_gradient(phi, ri, der)
     if not np.isfinite(der).all():
